@@ -274,6 +274,30 @@ func statelessPremise(c *Ctx, components bool) {
 	}
 }
 
+// premiseLocalRules re-runs the C02 obligations (backward rule = VJP, shape, no failure, one edge per tracked
+// operand, for every subset of tracked operands) for the Tensor methods a component package invokes: the
+// component's gradients are the composition of these local rules.
+func premiseLocalRules(c *Ctx, pkg string) {
+	names := engine.TensorMethodsInvokedBy(c.P, c.A, pkg)
+	var diff []string
+	isDiff := map[string]bool{}
+	for _, d := range differentiableOps {
+		isDiff[d] = true
+	}
+	for _, n := range names {
+		if isDiff[n] {
+			diff = append(diff, n)
+		}
+	}
+	if len(diff) == 0 {
+		return
+	}
+	c.R.Rule("premise (local rules): the C02 obligations A1/A2/A3/S1c of the differentiable Tensor methods invoked by " + pkg[strings.LastIndex(pkg, "/")+1:] + " (" + strings.Join(diff, ", ") + ") are re-run, incl. every subset of tracked operands (a frozen weight with a tracked input)")
+	RunOps(c, OpFilter{Methods: diff, Keep: func(rule, construct string) bool {
+		return isGradRule(rule) && !isBroadcastConstruct(construct)
+	}})
+}
+
 // unitTolerance adds the S10.tolerance rule (absolute equality tolerance below 2^-52) to a property.
 func unitTolerance(c *Ctx) {
 	c.R.Rule("S10.tolerance: the absolute equality tolerance extracted from the interpreted Eq kernel is below 2^-52 (the spacing of float64 at 1): distinct operands of ordinary magnitude never compare equal")
@@ -353,6 +377,7 @@ func init() {
 		c.R.Rule("A4.pre / A1.shape: default initialisation gives tracked parameters of shape [Outputs]; invalid configs and inputs are rejected with an error")
 		e.RunFCChecks()
 		statelessPremise(c, true)
+		premiseLocalRules(c, core.PkgLayers)
 		c.R.Rule("gradients of W, B and x: compositional over C01, C02 (UnSqueeze, MatMul, SumAlong, Add) and C07; the C07 obligations of the expansions FC uses are re-run here and carry known finding D2 (parameter gradients divided by the batch size)")
 		RunOps(c, OpFilter{Methods: []string{"Broadcast"}, Keep: func(rule, construct string) bool { return isGradRule(rule) && isBroadcastConstruct(construct) }})
 	}, 10, core.PkgLayers))
@@ -438,11 +463,13 @@ func init() {
 		c.R.Rule("A4.pre / S6.panic over EVERY public entry point: each Tensor method with symbolic sizes and integer arguments (error iff precondition violated, defined shape otherwise, no reachable panic incl. index/slice bounds, nil dereference, failed type assertion, explicit panic); package tensor constructors for every configuration case (nil, CPU, unset/unknown device) and symbolic dims incl. nil slices; TensorOf on rectangular and ragged data; Concat on nil/short/nil-containing lists; BackPropagate(nil)")
 		c.R.Rule("component entry points: constructors with nil/invalid configs, Forward/Compute/Accumulate/Update/Init with nil tensors, wrong ranks, mismatched sizes, missing inputs, unset SeedFunc: an error, never a panic")
 		RunOps(c, OpFilter{Keep: func(rule, construct string) bool { return isShapeRule(rule) }})
-		RunData(c, inSet("At", "TensorOf", "Full", "Zeros", "Ones", "Eye", "Concat", "Slice", "Patch"), func(rule, construct string) bool {
+		RunData(c, inSet("At", "TensorOf", "Full", "Zeros", "Ones", "Eye", "Concat", "Slice", "Patch", "NElems", "Shape", "Equals", "Sum", "Max", "Min", "Avg", "Mean", "Var", "Std"), func(rule, construct string) bool {
 			return rule == "S6.panic" || rule == "S6.hang" || rule == "A4.pre"
 		})
 		e := engine.NewOpEngine(c.P, c.A)
 		e.RunTensorEntryChecks(3)
+		e.RunAccessorTotality()
+		e.RunResetChecks()
 		e.RunLossChecks()
 		e.RunActivationChecks(2)
 		e.RunFCChecks()
@@ -518,6 +545,7 @@ func init() {
 		c.R.Rule("C13.tolerance: the Eq kernel's absolute tolerance (extracted from the interpreted kernel's branch condition) is strictly below the clipping epsilon 1e-12, so a prediction of exactly 0 or 1 is not tied with a clip bound")
 		e.RunToleranceCheck("cputensor.(*CPUTensor).Eq/tolerance")
 		statelessPremise(c, true)
+		premiseLocalRules(c, core.PkgLosses)
 		c.R.NotDecide("predictions exactly at the two clipping bounds (excluded by the quantifier); floating-point rounding")
 	}, 30))
 	register("C15", "activation gradients equal the derivative of the activation, also in a chain", componentCheck(func(e *engine.OpEngine, c *Ctx) {
@@ -530,6 +558,7 @@ func init() {
 		c.R.Rule("C13.tolerance (shared): the equality tolerance that defines a tie at 0 is strictly below 1e-12")
 		e.RunToleranceCheck("cputensor.(*CPUTensor).Eq/tolerance")
 		statelessPremise(c, true)
+		premiseLocalRules(c, core.PkgActs)
 		c.R.Rule("A3.finite at the extremes: with a unit chain factor and |x| <= 700 the interval of the gradient contains no NaN (0·Inf / Inf-Inf in the backward pass)")
 		c.R.NotDecide("finiteness for symbolic chain factors is decided on [-50,50]; rounding")
 	}, 30))
